@@ -29,14 +29,14 @@ CHECKS = {
     "C01": {
         "engine": "E1+E4",
         "technique": "abstract interpretation of every Unit(...) construction site in a three-component group domain (prefix / factors / dimension) + CFG dominance of exactness guards over floor divisions",
-        "level_text": "Unit.__new__ ignores the dimension argument for an interned key, so the history property reduces to: every construction site passes the dimension that is the homomorphic image of the factors it passes. All 10 sites are enumerated from the resolved call graph and decided for all operands at once; the three root() guards are decided on the CFG. Every obligation is discharged on the repaired tree (two fix: commits).",
+        "level_text": "Unit.__new__ ignores the dimension argument for an interned key, so the history property reduces to: every construction site passes the dimension that is the homomorphic image of the factors it passes. All 10 sites are enumerated from the resolved call graph and decided for all operands at once; the three root() guards are decided on the CFG (floor division or divmod); the dimension a serialised unit is rebuilt with must be decoded from the encoded exponents on every path (R01.7). Every obligation is discharged on the repaired tree (two fix: commits).",
         "design_ref": "DESIGN.md section 4, C01",
         "level_note": E4_NOTE + " Assumes Dimension arithmetic is the exponent-vector group (decided by C02 R02.5).",
     },
     "C02": {
         "engine": "E1+E4",
         "technique": "structural rules on the three interning constructors (key dataflow, CFG dominance of the table store) + abstract interpretation of every Dimension/Prefix/Unit operator against the free-abelian-group specification (log-values for prefixes)",
-        "level_text": "Eight structural facts (canonical keys, intern protocol, componentwise group operations, renormalisation, no allocation bypass, base-unit keys, change-of-base identity) together imply that interned objects are exactly the elements of a free abelian group, for expression trees of any shape. Each fact is an armed rule over resolved structure; all are discharged.",
+        "level_text": "Nine structural facts (canonical keys, intern protocol, Dimension.define re-keying every interned dimension, componentwise group operations, renormalisation, no allocation bypass, base-unit keys, change-of-base identity) together imply that interned objects are exactly the elements of a free abelian group, for expression trees of any shape. Each fact is an armed rule over resolved structure; all are discharged.",
         "design_ref": "DESIGN.md section 4, C02",
         "level_note": E4_NOTE + " Not decided: the 1e-9 numeric bound for mixed-base prefixes and exactness tests on float exponents.",
     },
@@ -57,23 +57,23 @@ CHECKS = {
     "C16": {
         "engine": "E6",
         "technique": "translation validation: the grammar is compiled with Lark as the Makefile does; terminals, rules (up to renaming of generated helper nonterminals), options and the LALR automaton (isomorphism by BFS from the start states) are compared with the tables extracted from _parser.py by an AST literal evaluator",
-        "level_text": "Same terminals, same rules including tree-shaping options, and isomorphic LALR tables run by the same table-driven runtime accept the same language and build the same trees, for every input string and both start symbols. Complete for the language question given the trusted embedded runtime; no input is parsed.",
+        "level_text": "Same terminals, same rules including tree-shaping options, and isomorphic LALR tables run by the same table-driven runtime accept the same language and build the same trees, for every input string and both start symbols; the embedded lexer is shown to consume input only through the scanner built from that terminal table (R16.7). Complete for the language question given the trusted embedded runtime; no input is parsed.",
         "design_ref": "DESIGN.md section 4, C16",
         "level_note": "Trusted: the Lark 1.1.2 runtime embedded in _parser.py (no reference copy offline), Lark 1.3.1 as grammar compiler. Serialisation fields only one version has are skipped and named in the evidence.",
     },
     "C17": {
         "engine": "E1+E2/E3+E6",
         "technique": "callback coverage against the shipped grammar tables; context-pruned reachability from the transformer callbacks; explicit-raise closure against KeyError / LarkError subclasses (hierarchy read from _parser.py's AST); interprocedural catch-and-convert rule for int() of unbounded tokens; who-may-write on the registries; memo-key lint",
-        "level_text": "Every grammar rule has a callback; on the functions reachable from the callbacks the only exception classes that can escape through raise statements are KeyError and LarkError subclasses; the three int() conversions of unbounded digit tokens are caught and re-raised as ParseError (one fix: commit); no reachable function writes a name/symbol registry; magnitudes come from the builtin int/float; no memo on the path is keyed by a number or reads the registries. Lexing/parsing failures inside the embedded Lark runtime are the trusted base.",
+        "level_text": "Every grammar rule has a callback; on the functions reachable from the callbacks the only exception classes that can escape through raise statements are KeyError and LarkError subclasses; the three int() conversions of unbounded digit tokens are caught and re-raised as ParseError (one fix: commit), and a table of other library calls that are partial on text (unicodedata.name, Decimal, next, str.index ...) is applied to the parser zone; no reachable function writes a name/symbol registry; magnitudes come from the builtin int/float; no memo on the path is keyed by a number or reads the registries. Lexing/parsing failures inside the embedded Lark runtime are the trusted base.",
         "design_ref": "DESIGN.md section 4, C17",
-        "level_note": "Trusted: the embedded Lark runtime raises only LarkError subclasses; mypy call resolution; Any-typed arguments conform to annotations. Not decided: implicit exceptions of builtins other than int() (float('1e999') is inf).",
+        "level_note": "Trusted: the embedded Lark runtime raises only LarkError subclasses; mypy call resolution; Any-typed arguments conform to annotations. Not decided: implicit exceptions of builtins outside the partial-call table (float('1e999') is inf).",
     },
     "C19": {
         "engine": "E1+E2+E5",
         "technique": "interprocedural write-then-raise analysis on statement CFGs of the definition entry points (summaries of may-write-naming / may-raise per callee); dominance of raising guards over registry bindings; constructor early-return rule; creation trace and registries from the declaration evaluator under every entry module; memo-over-registry rule",
-        "level_text": "A failing definition leaves the registries untouched iff no raise is reachable after a naming write on any path through the entry point and its callees; a name is never bound to two objects iff every binding is dominated by a raising test and the shipped tables have no duplicates; a declared name survives an earlier anonymous construction iff the declaring constructor registers late names. All decided structurally and, for the shipped configuration, exhaustively; discharged after five fix: commits.",
+        "level_text": "A failing definition leaves the registries untouched iff no raise is reachable after a naming write on any path through the entry point and its callees; a name is never bound to two objects iff every binding is dominated by a raising test and the shipped tables have no duplicates; a declared name survives an earlier anonymous construction iff the declaring constructor registers late names; a rejected constructor call leaves no half-built or prematurely initialised instance in the intern table (R19.7/R19.8, must-assign analysis on the CFG of __init__). All decided structurally and, for the shipped configuration, exhaustively; discharged after six fix: commits.",
         "design_ref": "DESIGN.md section 4, C19",
-        "level_note": "Trusted: mypy call resolution; E5's declaration model. The intern table _known is outside the armed rule (an orphan left by a failing define is unreachable by name, symbol or key); Dimension.scale's translate() guard is infeasible for a fresh unit and is not an entry.",
+        "level_note": "Trusted: mypy call resolution; E5's declaration model. That the intern table keeps an anonymous, fully built instance after a failing definition is accepted (indistinguishable from an earlier anonymous construction); Dimension.scale's translate() guard is infeasible for a fresh unit and is not an entry.",
     },
     "C20": {
         "engine": "E1+E2",
@@ -85,21 +85,21 @@ CHECKS = {
     "C18": {
         "engine": "E1+E4+E5",
         "technique": "abstract interpretation of LogarithmicUnit.level and Level.quantify to normal forms with ln/exp heads, compared with the logarithmic definition; units-of-measure typing of the log argument; structural rules; declared bases from E5",
-        "level_text": "level() normalises to (k/p)*log_B(val(q)/val(ref)) and quantify() to B**(L*p/k)*ref for symbolic base, prefix, power ratio, reference and units, so the two directions are mutually inverse and the level is increasing for B > 1 (all declared bases are). The log argument is shown dimensionless, the reference unprefixed, k in {1,2} by membership.",
+        "level_text": "level() normalises to (k/p)*log_B(val(q)/val(ref)) and quantify() to B**(L*p/k)*ref for symbolic base, prefix, power ratio, reference and units, so the two directions are mutually inverse and the level is increasing for B > 1 (all declared bases are). The log argument is shown dimensionless, the reference unprefixed, k in {1,2} by membership, and Logarithm / LogarithmicUnit are interned under keys that determine their defining arguments exactly (R18.7).",
         "design_ref": "DESIGN.md section 4, C18",
         "level_note": E4_NOTE + " Axiom: in_unit value-preserving (C04). Not decided: floating-point rounding.",
     },
     "C06": {
         "engine": "E1+E4",
         "technique": "abstract interpretation: physical-value normal forms of + - * / ** and of the magnitudes compared in __eq__/__lt__ (under their path conditions), relative to the in_unit axiom; layering rule on prefix arithmetic",
-        "level_text": "If every operator's result has the physical value of the operation applied to the operands' physical values, re-expressing an operand cannot change the result. Decided for all operands at once as identities of normal forms; the comparison operators are shown to compare the operands' own physical values in one unit. number/quantity (__rtruediv__) is a known finding, hence 'other'.",
+        "level_text": "If every operator's result has the physical value of the operation applied to the operands' physical values, re-expressing an operand cannot change the result. Decided for all operands at once as identities of normal forms; the comparison operators are shown to compare the operands' own physical values in one unit and to return exactly that comparison on every path (no constant shortcut, no tolerance); value fields of the shared value objects are assigned only by their constructors (R06.6). number/quantity (__rtruediv__) is a known finding, hence 'other'.",
         "design_ref": "DESIGN.md section 4, C06",
         "level_note": E4_NOTE + " Proved relative to the in_unit axiom (C04). Not decided: rounding ties.",
     },
     "C12": {
         "engine": "E1+E4+E7",
         "technique": "order-domain evaluation: the overlap predicate is extracted from the AST and evaluated on every weak ordering of the four interval bounds; dispatch matrix of the three __eq__ methods resolved through their isinstance arms and Python's reflected fallback; field-normalisation contradiction rule for __hash__; operator-consistency rule on ordering methods; comparison normal forms shared with C06",
-        "level_text": "Symmetry of Measurement equality is decided exhaustively over all 26 admissible weak orders (finite and complete: the predicate touches its arguments only through comparisons); for each of the 9 ordered type pairs both directions reduce to the same predicate on the same normalised operands; ordering methods use their own operator on every path; == and < compare physical values (C06). Quantity.__hash__ hashes fields that __eq__ normalises - a genuine defect pinned by the suite, recorded as a known finding, hence 'other'.",
+        "level_text": "Symmetry of Measurement equality is decided exhaustively over all 26 admissible weak orders (finite and complete: the predicate touches its arguments only through comparisons); for each of the 9 ordered type pairs both directions reduce to the same predicate on the same normalised operands; ordering methods use their own operator on every path; == and < compare physical values and return that exact comparison (C06); a subclass overriding a comparison must treat both operands alike (R12.7). Quantity.__hash__ hashes fields that __eq__ normalises - a genuine defect pinned by the suite, recorded as a known finding, hence 'other'.",
         "design_ref": "DESIGN.md section 4, C12",
         "level_note": E4_NOTE + " Not decided: trichotomy / sorted() numerically at floating-point ties; overlap equality is not transitive by design.",
     },
@@ -113,21 +113,21 @@ CHECKS = {
     "C15": {
         "engine": "E1+E6+E5",
         "technique": "structural agreement rules between sibling codecs (__getnewargs_ex__ vs __new__ key parameters; __json__ keys vs __from_json__ reads; tag dispatch table; Decimal writer/reader pairing; pickle hook inventory) + the formatter-language inclusion of C13 at the serialisation sites",
-        "level_text": "Writer and reader of each representation are compared as tables extracted from the AST: keys, tags, positions and type conversions must agree, and nothing may route a Quantity's unit through text for pickle/copy. The stored unit text is str(unit); its language is checked against the parser (three known findings inherited from C13, hence 'other').",
+        "level_text": "Writer and reader of each representation are compared as tables extracted from the AST: keys, tags, positions and type conversions must agree, nothing may route a Quantity's unit through text for pickle/copy, and the Dimension/Prefix decoders must rebuild from the encoded structural key on every path (R15.7). The stored unit text is str(unit); its language is checked against the parser (three known findings inherited from C13, hence 'other').",
         "design_ref": "DESIGN.md section 4, C15",
         "level_note": "Trusted: CPython's pickle/copy/json protocols; E5 tables (every base unit is named). Not decided: equality of decoded float magnitudes; third-party serializers.",
     },
     "C14": {
         "engine": "E1+E4",
         "technique": "abstract interpretation of every Measurement operator to normal forms (rational functions with sqrt/abs heads); symbolic differentiation of the method's own measurand expression; units-of-measure typing of the stored uncertainty",
-        "level_text": "For + - * / ** and the reflected forms, with a Measurement or a plain Quantity on the other side, sigma^2 of the result is normalised and compared with sum((df/dx_i)^2 sigma_i^2), f being the measurand expression of the same method - an identity of rational functions, hence for all magnitudes, uncertainties, units and (symbolic) exponents. Unit typing, absence of spurious singularities and abs() storage are separate armed rules. All obligations are discharged after two fix: commits.",
+        "level_text": "For + - * / ** and the reflected forms, with a Measurement or a plain Quantity on the other side, sigma^2 of the result is normalised and compared with sum((df/dx_i)^2 sigma_i^2), f being the measurand expression of the same method - an identity of rational functions, hence for all magnitudes, uncertainties, units and (symbolic) exponents (sign cases of abs(n) and zero-measurand shortcuts are explored as choice points). Unit typing, absence of spurious singularities and abs() storage are separate armed rules. All obligations are discharged after two fix: commits.",
         "design_ref": "DESIGN.md section 4, C14",
         "level_note": E4_NOTE + " Axioms: in_unit value-preserving (C04), Quantity operators as specified (C03/C06). Not decided: floating-point rounding of the verified formulas.",
     },
     "C10": {
         "engine": "E5+E1+E4",
         "technique": "exact affine-map composition over the declared temperature graph (E5, rationals from literal text) + order rules on convert/_plan_conversion (list-order abstraction) + translate store identities (E4) + comparison normal forms",
-        "level_text": "Equality of the two coefficients of an affine map is equality for all magnitudes: the 12 composed maps are compared exactly with the definitions; the graph is shown to be a tree with leaf scales; multiply-then-offset within a hop and prefix-step-last across the plan are decided structurally, so prefixed targets scale the offsets too (one fix: commit). Cross-scale comparisons are shown to compare converted magnitudes.",
+        "level_text": "Equality of the two coefficients of an affine map is equality for all magnitudes: the 12 composed maps are compared exactly with the definitions; the graph is shown to be a tree with leaf scales; multiply-then-offset within a hop, prefix-step-last across the plan and offset-preserving hop rebuilding (R10.7) are decided structurally, so prefixed targets scale the offsets too (one fix: commit). Cross-scale comparisons are shown to compare converted magnitudes.",
         "design_ref": "DESIGN.md section 4, C10",
         "level_note": "Trusted: E5's declaration model; assumption that the planner follows the unique simple path of the temperature tree (the tree shape is checked). Not decided: floating-point rounding of round trips.",
     },
@@ -141,7 +141,7 @@ CHECKS = {
     "C07": {
         "engine": "E1+E2/E3",
         "technique": "context-pruned reachability from the conversion entry points over the mypy-resolved call graph; assert/__debug__ scan; explicit-raise closure with handler matching; CFG dominance of the visited-set guard; mypy diagnostics as a typed lint in the planner",
-        "level_text": "On the set of functions reachable from convert / in_unit / + / - / == / < (about 60, parser pruned away by call-site specialisation) there is no assert and no __debug__, so -O compiles identical code; the only exception classes that can escape through raise statements are ConversionNotFound (conversion entries) and none (comparison entries); handlers are exact; the path search recursion is bounded by a per-query visited set. Discharged after one fix: commit replacing four asserts.",
+        "level_text": "On the set of functions reachable from convert / in_unit / + / - / == / < (about 60, parser pruned away by call-site specialisation) there is no assert and no __debug__, so -O compiles identical code; the only exception classes that can escape through raise statements are ConversionNotFound (conversion entries) and none (comparison entries); handlers are exact; the path search recursion is bounded by a per-query visited set; in the planner no reduce() runs over a possibly empty sequence and no element is taken from a filtered (possibly empty) sequence without an emptiness test. Discharged after one fix: commit replacing four asserts.",
         "design_ref": "DESIGN.md section 4, C07",
         "level_note": "Trusted: mypy call resolution; assumption that Any-typed arguments conform to declared annotations. Not decided: implicit KeyError/IndexError from dict/list operations inside the planner's multiset heuristics (inventoried), and whether a possible conversion is found (C04).",
     },
@@ -154,9 +154,9 @@ CHECKS = {
     },
     "C09": {
         "engine": "E5",
-        "technique": "partial evaluation of the declaration DSL from the AST in exact rational arithmetic + multiplicative Gaussian elimination (every cycle of the definition graph)",
-        "level_text": "Every declared equivalence of every shipped module is evaluated from source text in exact arithmetic; every dependent equation (= every cycle, also through compound units) must close within 1e-5 x degree, every base unit must be determined by the equations and the SI anchors. Exhaustive over the shipped configuration, which is the property's whole quantifier; one genuine inconsistency (TonOfRefrigeration) is pinned by the tests and listed as a known finding, hence 'other' rather than 'proof'.",
+        "technique": "partial evaluation of the declaration DSL from the AST in exact rational arithmetic + multiplicative Gaussian elimination (every cycle of the definition graph) + graph reachability under the planner's decomposition rules (anchors verified in the source)",
+        "level_text": "Every declared equivalence of every shipped module is evaluated from source text in exact arithmetic; every dependent equation (= every cycle, also through compound units) must close within 1e-5 x degree, every base unit must be determined by the equations and the SI anchors, and every named unit must satisfy a necessary condition for the planner to reach SI that is derived from three facts re-verified in conversions.py (paths join whole units; a unit is decomposed only through its own larger equivalence and never in a base dimension): R09.7 found Donkeypower stranded (one fix: commit). Exhaustive over the shipped configuration, which is the property's whole quantifier; one genuine inconsistency (TonOfRefrigeration) is pinned by the tests and listed as a known finding, hence 'other' rather than 'proof'.",
         "design_ref": "DESIGN.md section 4, C09",
-        "level_note": "Trusted: E5's model of Unit.equals / Dimension.scale / operator semantics (sa/decl.py); literal text is the intended exact value. Not decided: that the planner finds a route between connected units (C04).",
+        "level_note": "Trusted: E5's model of Unit.equals / Dimension.scale / operator semantics (sa/decl.py); literal text is the intended exact value. Not decided: that the planner finds a route for every unit passing the necessary condition R09.7, and the value it computes (C04).",
     },
 }
